@@ -55,7 +55,7 @@ inductive Val where
 inductive TErr where
   | untyped (e : Rlp.Err)
   | expectedString | expectedList | canonInt | overflow | badBool | wrongSize
-  | tooFew | tooMany | badStatus | badSchema
+  | tooFew | tooMany | badStatus | badSchema | wrongNilKind
   deriving Repr, BEq, DecidableEq
 
 /-! ### helpers -/
@@ -227,10 +227,11 @@ def dec : Ty → Item → Except TErr Val
   | .struct _, .str _ => .error .expectedList
   | .ptr t, i => dec t i
   | .nilptr t, i =>
-    -- makeOptionalPtrDecoder: `size == 0 && kind != Byte` ⇒ nil, for the empty string AND the empty list
+    -- makeOptionalPtrDecoder (after fix d3120fe): an empty value is nil only if it is the kind the encoder writes
+    -- for a nil pointer of this element type; the other empty kind is an error
     match i with
-    | .str [] => .ok .nil
-    | .list [] => .ok .nil
+    | .str [] => if nilIsList t then .error .wrongNilKind else .ok .nil
+    | .list [] => if nilIsList t then .ok .nil else .error .wrongNilKind
     | i =>
       match dec t i with
       | .ok v => .ok (.some v)
@@ -285,6 +286,12 @@ def isFields : Ty → Bool
   | .scons _ r => isFields r
   | _ => false
 
+/-- element types of an rlp:"nil" pointer whose nil form is statically known to the decoder (the translator
+refuses the others: custom codecs, pointers) -/
+def nilKnown : Ty → Bool
+  | .uint _ | .bigint | .bool | .bytes | .fixed _ | .list _ | .struct _ => true
+  | _ => false
+
 /-- The decoder accepts exactly one byte string per value. -/
 def Canonical : Ty → Bool
   | .uint _ | .bigint | .bool | .bytes | .fixed _ | .snil => true
@@ -292,7 +299,7 @@ def Canonical : Ty → Bool
   | .scons f r => Canonical f && Canonical r
   | .struct fs => Canonical fs && isFields fs
   | .ptr t => Canonical t
-  | .nilptr _ => false                                   -- accepts both 0x80 and 0xC0 as nil
+  | .nilptr t => Canonical t && nilKnown t
   | .custom k w => (k == .ident || k == .receiptStatus) && Canonical w
 
 /-- No encoding of a non-nil `nilptr` element is empty (else it would decode as nil): the element is a
